@@ -129,7 +129,9 @@ SHAPES = {
     "Guid": [(r"<impl str>::len$", r""), (r"<impl str>::starts_with$", r"c:123"), (r"<impl str>::ends_with$", r"c:125"), (r"Index<I> for str>::index$", r"Range\{c:1,c:37\}"), (r"parse_str$", r"")],
     "Version": [(r"<impl str>::split$", r"c:46"), (r"Iterator::count$|::count$", r""), (r"Iterator::all$", r"")],
     "Language": [(r"<impl str>::split$", r"c:44"), (r"Iterator::all$", r"")],
-    "Cabinet": [(r"<impl str>::strip_prefix$", r"c:35"), (r"Category::validate$", r"Category::Identifier"), (r"<impl str>::rsplitn$", r"c:2,c:46")],
+    "Cabinet": [(r"<impl str>::strip_prefix$", r"c:35"), (r"Category::validate$", r"Category::Identifier"),
+                # the name is split at its LAST dot: rsplitn(2, '.'), rsplit_once('.') or rfind('.')
+                (r"<impl str>::(rsplitn|rsplit_once|rfind)$", r"(c:2,)?c:46$")],
 }
 PARSE_TY = {"Integer": "i16", "DoubleInteger": "i32"}
 
@@ -181,11 +183,29 @@ def cat_arms(ctx, rule="CAT-ARMS"):
                         v = S.val(o)
                         if re.fullmatch(r"c:\d+", v):
                             seen.add((r["op"], v))
+        # comparisons inside closures built in the arm (`extension.map_or(true, |ext| ext.len() <= 3)`) belong to the arm
+        from ..lib import closure_sites
+        for b, c in closure_sites(prog, f):
+            if b in blks:
+                Sc = Sym(prog, c)
+                for bl in c.blocks:
+                    for s in bl["stmts"]:
+                        r = s["rhs"]
+                        if r["rv"] == "bin" and r["op"] in ("Lt", "Le", "Gt", "Ge", "Eq", "Ne"):
+                            for o in r["ops"]:
+                                v = Sc.val(o)
+                                if re.fullmatch(r"c:\d+", v):
+                                    seen.add((r["op"], v))
         have = {v for (op, v) in seen}
+        if name == "Cabinet" and not any(n.endswith("<impl str>::rsplitn") for (b, n, args, tt) in symcalls(prog, f, S) if b in blks):
+            consts = consts - {"c:2"}  # the part count exists only in the rsplitn spelling
         ctx.check(consts <= have, rule, "%s limits %s" % (name, sorted(consts)), str(sorted(seen)), "Category::%s compares against %s, expected the limits %s" % (name, sorted(seen), sorted(consts)), f.loc(), fn=f.name,
                   key="%s|limits|%s" % (rule, name))
         if name == "Cabinet":
-            ctx.check({("Le", "c:8"), ("Le", "c:3"), ("Lt", "c:2")} <= seen, rule, "Cabinet 8.3 comparisons", "", "Cabinet limits are compared as %s (expected len <= 8, len <= 3, parts < 2)" % sorted(seen), f.loc(), fn=f.name)
+            def le(n_):
+                return bool({("Le", "c:%d" % n_), ("Gt", "c:%d" % n_), ("Lt", "c:%d" % (n_ + 1)), ("Ge", "c:%d" % (n_ + 1))} & seen)
+            parts_ok = ("Lt", "c:2") in seen or ("Ge", "c:2") in seen or "c:2" not in consts
+            ctx.check(le(8) and le(3) and parts_ok, rule, "Cabinet 8.3 comparisons", "", "Cabinet limits are compared as %s (expected len <= 8, len <= 3, parts < 2)" % sorted(seen), f.loc(), fn=f.name)
         if name == "Version":
             ctx.check(("Le", "c:4") in seen, rule, "Version has at most four parts", "", "Version part count compared as %s" % sorted(seen), f.loc(), fn=f.name)
         if name == "Guid":
